@@ -15,10 +15,10 @@ import (
 func astConsts(repo string) map[string]int64 {
 	out := map[string]int64{}
 	want := map[string][]string{
-		"pool/service.go":                {"defaultRequestNumHosts", "poolWhitelistTimeout"},
-		"pool/store/badger/versions.go":  {"dbVersion"},
-		"agent.go":                       {"minUpdateInterval", "maxUpdateInterval"},
-		"agent/agent.go":                 {"defaultNumHosts"},
+		"pool/service.go":               {"defaultRequestNumHosts", "poolWhitelistTimeout"},
+		"pool/store/badger/versions.go": {"dbVersion"},
+		"agent.go":                      {"minUpdateInterval", "maxUpdateInterval"},
+		"agent/agent.go":                {"defaultNumHosts"},
 	}
 	for file, names := range want {
 		fset := token.NewFileSet()
